@@ -126,27 +126,35 @@ def many_members_fn():
     a long feature collection that start upstream and reach across many of them; strict and relaxed queries anywhere return exactly the members whose span
     lies within / overlaps the query. Realised leg, expectation by brute force over the spans."""
 
-    def fn(n, h, span, q, ab, within):
-        n, h, span, q, ab, within = concretize(n, h, span, q, ab, within)
+    def fn(n, h, span, q, ab, within, sc=1, co=0):
+        n, h, span, q, ab, within, sc, co = concretize(n, h, span, q, ab, within, sc, co)
         with untraced():
-            spans = {}
+            spans, coding = {}, {}
             genes, fcs = [], []
+            T = 100 * sc  # tile size: with sc = 3000 the members spread over many 128 kb bins and the long members cross bin boundaries
             for i in range(n):
-                s, e = 100 * i + 10, 100 * i + 40
-                genes.append(GeneInterval([TranscriptInterval([s], [e], PLUS, guid=10000 + i)], guid=20000 + i, gene_id="g%d" % i))
+                s, e = T * i + 10 * sc, T * i + 40 * sc
+                if i % 3 == 1:   # every third short gene is coding
+                    tx = TranscriptInterval([s], [e], PLUS, [s], [s + 9], [CDSFrame.ZERO], guid=10000 + i)
+                else:
+                    tx = TranscriptInterval([s], [e], PLUS, guid=10000 + i)
+                genes.append(GeneInterval([tx], guid=20000 + i, gene_id="g%d" % i))
                 spans[20000 + i] = (s, e)
-            hs, he = 100 * h + 50, 100 * (h + span) + 20
-            genes.append(GeneInterval([TranscriptInterval([hs], [he], PLUS, guid=30000)], guid=30001, gene_id="host"))
+                coding[20000 + i] = i % 3 == 1
+            hs, he = T * h + 50 * sc, T * (h + span) + 20 * sc
+            genes.append(GeneInterval([TranscriptInterval([hs], [he], PLUS, [hs], [hs + 30], [CDSFrame.ZERO], guid=30000)], guid=30001, gene_id="host"))
             spans[30001] = (hs, he)
+            coding[30001] = True
             fcs.append(FeatureIntervalCollection([FeatureInterval([hs + 1], [he + 1], PLUS, guid=30002)], guid=30003, feature_collection_id="hostfc"))
             spans[30003] = (hs + 1, he + 1)
-            hi = 100 * (n + 70)
+            coding[30003] = False
+            hi = T * (n + 70)
             coll = AnnotationCollection(genes=genes, feature_collections=fcs, sequence_name="chr1", start=0, end=hi)
             a, b = [(0, 100), (45, 55), (15, 35), (5, 700)][ab]
-            qs, qe = 100 * q + a, 100 * q + b
-            res = coll.query_by_position(qs, qe, completely_within=bool(within))
+            qs, qe = T * q + a * sc, T * q + b * sc
+            res = coll.query_by_position(qs, qe, completely_within=bool(within), coding_only=bool(co))
             got = sorted(c.guid for c in res.iter_children())
-            want = sorted(g for g, (s, e) in spans.items() if ((qs <= s and e <= qe) if within else (s < qe and qs < e)))
+            want = sorted(g for g, (s, e) in spans.items() if ((qs <= s and e <= qe) if within else (s < qe and qs < e)) and (coding[g] or not co))
             return got == want
 
     return fn
